@@ -11,20 +11,20 @@ import (
 func init() {
 	Register(&Property{
 		ID:    "C17",
-		Floor: 34,
-		Clauses: "ClientConn.nextStreamID is written only at set-up (constant 1) and in addStreamLocked (+2); clientStream.ID is assigned only there, from nextStreamID before the increment; cc.streams gains entries only there; " +
-			"isUsableLocked refuses when nextStreamID+2*pendingRequests reaches 2^31-1; addStreamLocked is called only from writeRequest, only after awaitOpenSlotForStreamLocked returned nil, with cc.mu held and not released in between, and before the reqHeaderMu token is given back (HEADERS leave in stream-ID order); " +
-			"awaitOpenSlotForStreamLocked returns nil only under currentRequestCountLocked() < maxConcurrentStreams on an open, usable conn, re-evaluated after every cond.Wait; currentRequestCountLocked = len(streams)+streamsReserved+pendingResets; forgetStreamID broadcasts after removing the stream; " +
-			"idleStateLocked: without StrictMaxConcurrentStreams canTakeNewRequest needs count < max (only exception: a never-used closed conn), the result needs isUsableLocked; reserveNewRequest increments streamsReserved only under canTakeNewRequest with cc.mu held; " +
-			"streamsReserved has four reviewed writers; the pool hands out a cached or freshly dialled conn only after ReserveNewRequest() succeeded (the dedicated single-use dial excepted) and ReserveNewRequest is reserveNewRequest.",
+		Floor: 38,
+		Clauses: "ClientConn.nextStreamID is written hcOnly at set-up (constant 1) and in addStreamLocked (+2); clientStream.ID is assigned hcOnly there, from nextStreamID before the increment; cc.streams gains entries hcOnly there; " +
+			"isUsableLocked refuses when nextStreamID+2*pendingRequests reaches 2^31-1; addStreamLocked is called hcOnly from writeRequest, hcOnly after awaitOpenSlotForStreamLocked returned nil, with cc.mu held and not released in between, and before the reqHeaderMu token is given back (HEADERS leave in stream-ID order); " +
+			"awaitOpenSlotForStreamLocked returns nil hcOnly under currentRequestCountLocked() < maxConcurrentStreams on an open, usable conn, re-evaluated after every cond.Wait; currentRequestCountLocked = len(streams)+streamsReserved+pendingResets; forgetStreamID broadcasts after removing the stream; " +
+			"idleStateLocked: without StrictMaxConcurrentStreams canTakeNewRequest needs count < max (hcOnly exception: a never-used closed conn), the result needs isUsableLocked; reserveNewRequest increments streamsReserved hcOnly under canTakeNewRequest with cc.mu held; " +
+			"streamsReserved has four reviewed writers; the pool hands out a cached or freshly dialled conn hcOnly after ReserveNewRequest() succeeded (the dedicated single-use dial excepted) and ReserveNewRequest is reserveNewRequest.",
 		NotCovered: "SETTINGS lowering the limit below the number of streams already open; pendingResets accounting; that every opened stream is eventually forgotten; the go1.27 net/http wrapper build (transport_wrap.go) is not in the analysed configuration.",
 		Run:        c17,
 	})
 }
 
 const (
-	c17Lock   = "(*sync.Mutex).Lock"
-	c17Unlock = "(*sync.Mutex).Unlock"
+	hcC17Lock   = "(*sync.Mutex).Lock"
+	hcC17Unlock = "(*sync.Mutex).Unlock"
 )
 
 func c17(c *Ctx) {
@@ -50,32 +50,32 @@ func c17(c *Ctx) {
 	c.Writers("http2.ClientConn.nextStreamID", newCC, addStrm)
 	c.Has(newCC, stNext.StoredIs("1"))
 	c.Count(newCC, stNext, 1, 1)
-	c10Lin(c, addStrm, "value stored to nextStreamID", storedVals(c, stNext), "$r.nextStreamID+2")
+	hcC10Lin(c, addStrm, "value stored to nextStreamID", hcStoredVals(c, stNext), "$r.nextStreamID+2")
 	c.Writers("http2.clientStream.ID", addStrm)
 	c.Count(addStrm, stID, 1, 1)
 	c.Has(addStrm, stID.StoredIs("$r.nextStreamID"))
 	c.Before(addStrm, stID, stNext) // the ID is read before the counter moves
-	c17MapWriters(c, strmsMap, addStrm)
-	c.Before(addStrm, stID, MapUpdates(strmsMap))
+	hcC17MapWriters(c, strmsMap, addStrm)
+	c.Before(addStrm, stID, HcMapUpdates(strmsMap))
 	// no wrap-around of the 31-bit ID space
 	c.Reject(usable, Calls("(*http2.ClientConn).tooIdleLocked"), "$r.nextStreamID+2*$r.pendingRequests >= 2147483647")
-	c17OnlyTrueVia(c, usable, "(*http2.ClientConn).tooIdleLocked")
+	hcC17OnlyTrueVia(c, usable, "(*http2.ClientConn).tooIdleLocked")
 
 	// ---- opening a stream ------------------------------------------------------
 	c.Callers(addStrm, wreq)
 	c.Callers(await, wreq)
 	c.Reject(wreq, Calls(addStrm), "awaitOpenSlotForStreamLocked($r.cc,$r) != nil")
-	c.HeldAt(wreq, Calls(await, addStrm), "$r.cc.mu", []string{c17Lock}, []string{c17Unlock})
-	c.NoPathWithout(wreq, Calls(c17Unlock).ArgIs(0, "&$r.cc.mu"), Calls(addStrm), Calls(await))
-	c.NeverAfter(wreq, Recvs("$r.cc.reqHeaderMu"), Calls(addStrm), false)
-	c.NoPathWithout(wreq, Calls(addStrm), Recvs("$r.cc.reqHeaderMu"), Calls(encode))
+	c.HeldAt(wreq, Calls(await, addStrm), "$r.cc.mu", []string{hcC17Lock}, []string{hcC17Unlock})
+	c.HcNoPathWithout(wreq, Calls(hcC17Unlock).ArgIs(0, "&$r.cc.mu"), Calls(addStrm), Calls(await))
+	c.NeverAfter(wreq, HcRecvs("$r.cc.reqHeaderMu"), Calls(addStrm), false)
+	c.HcNoPathWithout(wreq, Calls(addStrm), HcRecvs("$r.cc.reqHeaderMu"), Calls(encode))
 
 	// ---- waiting for a slot ------------------------------------------------------
 	c.Guard(await, RetOK(), "currentRequestCountLocked($r) < $r.maxConcurrentStreams", "!$r.closed", "canTakeNewRequestLocked($r)")
-	c.NoPathWithout(await, Calls("(*sync.Cond).Wait"), RetOK(), Calls(count))
-	c.NoPathWithout(await, Calls("(*sync.Cond).Wait"), RetOK(), Calls(canTake))
+	c.HcNoPathWithout(await, Calls("(*sync.Cond).Wait"), RetOK(), Calls(count))
+	c.HcNoPathWithout(await, Calls("(*sync.Cond).Wait"), RetOK(), Calls(canTake))
 	c.Count(await, RetOK(), 1, 1)
-	c10Lin(c, count, "result", func(fn *ssa.Function) []ssa.Value {
+	hcC10Lin(c, count, "result", func(fn *ssa.Function) []ssa.Value {
 		var out []ssa.Value
 		for _, in := range Returns().F(c.P, fn) {
 			out = append(out, in.(*ssa.Return).Results[0])
@@ -88,21 +88,21 @@ func c17(c *Ctx) {
 
 	// ---- choosing a connection -----------------------------------------------------
 	stCan := Stores("http2.clientConnIdleState.canTakeNewRequest")
-	c17IdleState(c, idle, stCan)
+	hcC17IdleState(c, idle, stCan)
 	c.Guard(idle, stCan.StoredIs("true"), "$r.nextStreamID == 1", "$r.closed", "$r.streamsReserved == 0")
 	c.Guard(idle, Calls(count), "!$r.strictMaxConcurrentStreams")
 	stResv := Stores("http2.ClientConn.streamsReserved")
 	c.Writers("http2.ClientConn.streamsReserved", reserve, "(*http2.ClientConn).decrStreamReservationsLocked", "(http2.netHTTPClientConn).Reserve", "(http2.netHTTPClientConn).Release")
 	c.Reject(reserve, stResv, "!idleStateLocked($r).canTakeNewRequest")
-	c.HeldAt(reserve, Union(Calls(idle), stResv), "$r.mu", []string{c17Lock}, []string{c17Unlock})
-	c10Lin(c, reserve, "value stored to streamsReserved", storedVals(c, stResv), "$r.streamsReserved+1")
+	c.HeldAt(reserve, Union(Calls(idle), stResv), "$r.mu", []string{hcC17Lock}, []string{hcC17Unlock})
+	hcC10Lin(c, reserve, "value stored to streamsReserved", hcStoredVals(c, stResv), "$r.streamsReserved+1")
 	c.Has(pubResv, RetTerm(0, "reserveNewRequest($r)"))
 	c.Callers(reserve, pubResv)
-	c17PoolReturns(c, getConn, pubResv)
+	hcC17PoolReturns(c, getConn, pubResv)
 }
 
-// c17MapWriters: m[k]=v on maps of the given type happens only in allowed.
-func c17MapWriters(c *Ctx, mapType string, allowed ...string) {
+// hcC17MapWriters: m[k]=v on maps of the given type happens hcOnly in allowed.
+func hcC17MapWriters(c *Ctx, mapType string, allowed ...string) {
 	rule := "writers"
 	construct := "insertions into " + mapType + " ⊆ {" + fmt.Sprint(allowed) + "}"
 	allow := map[string]bool{}
@@ -111,7 +111,7 @@ func c17MapWriters(c *Ctx, mapType string, allowed ...string) {
 	}
 	n := 0
 	for _, fn := range c.P.All {
-		for _, in := range MapUpdates(mapType).F(c.P, fn) {
+		for _, in := range HcMapUpdates(mapType).F(c.P, fn) {
 			n++
 			if o := FnName(Outer(fn)); !allow[o] {
 				c.Fail(rule, construct, InstrPos(in), "insertion in "+o)
@@ -126,12 +126,12 @@ func c17MapWriters(c *Ctx, mapType string, allowed ...string) {
 	c.OK(rule, construct, fmt.Sprintf("%d insertion(s)", n))
 }
 
-// c17OnlyTrueVia: a boolean && chain function can return true only through
+// hcC17OnlyTrueVia: a boolean && chain function can return true hcOnly through
 // the block that evaluates the last conjunct (the named call): every other
 // incoming value of the returned merge is the constant false.
-func c17OnlyTrueVia(c *Ctx, fnName, lastCall string) {
+func hcC17OnlyTrueVia(c *Ctx, fnName, lastCall string) {
 	rule := "conjunction"
-	construct := fnName + ": returns true only when every conjunct up to " + lastCall + " held"
+	construct := fnName + ": returns true hcOnly when every conjunct up to " + lastCall + " held"
 	fn := c.MustFn(fnName)
 	if fn == nil {
 		return
@@ -167,10 +167,10 @@ func c17OnlyTrueVia(c *Ctx, fnName, lastCall string) {
 	c.OK(rule, construct, fmt.Sprintf("%d incoming value(s)", n))
 }
 
-// c17IdleState: the general store to canTakeNewRequest is false unless
-// isUsableLocked() held, and isUsableLocked is consulted only under
+// hcC17IdleState: the general store to canTakeNewRequest is false unless
+// isUsableLocked() held, and isUsableLocked is consulted hcOnly under
 // "strict || count < max".
-func c17IdleState(c *Ctx, fnName string, stCan Sel) {
+func hcC17IdleState(c *Ctx, fnName string, stCan Sel) {
 	rule := "conjunction"
 	construct := fnName + ": canTakeNewRequest = (strict || count < max) && isUsableLocked()"
 	fn := c.MustFn(fnName)
@@ -203,7 +203,7 @@ func c17IdleState(c *Ctx, fnName string, stCan Sel) {
 			return
 		}
 		usable++
-		// the block calling isUsableLocked is entered only when maxConcurrentOkay held
+		// the block calling isUsableLocked is entered hcOnly when maxConcurrentOkay held
 		ok2 := false
 		for _, f := range FactsAtInstr(call) {
 			mp, isPhi := f.If.Cond.(*ssa.Phi)
@@ -215,7 +215,7 @@ func c17IdleState(c *Ctx, fnName string, stCan Sel) {
 				if k, isC := me.(*ssa.Const); isC && Term(k) == "true" {
 					// must come from the strict branch
 					strict := false
-					for _, a := range EdgeFacts(mp.Block().Preds[i], mp.Block()) {
+					for _, a := range HcEdgeFacts(mp.Block().Preds[i], mp.Block()) {
 						if a.Kind == TRUE && a.String() == "$r.strictMaxConcurrentStreams" {
 							strict = true
 						}
@@ -223,7 +223,7 @@ func c17IdleState(c *Ctx, fnName string, stCan Sel) {
 					good = good && strict
 					continue
 				}
-				if CondAtom(me).String() != mustAtom(c, "currentRequestCountLocked($r) < $r.maxConcurrentStreams") {
+				if CondAtom(me).String() != hcMustAtom(c, "currentRequestCountLocked($r) < $r.maxConcurrentStreams") {
 					good = false
 				}
 			}
@@ -243,7 +243,7 @@ func c17IdleState(c *Ctx, fnName string, stCan Sel) {
 	c.OK(rule, construct, "")
 }
 
-func mustAtom(c *Ctx, spec string) string {
+func hcMustAtom(c *Ctx, spec string) string {
 	a, err := c.P.ParseAtom(spec)
 	if err != nil {
 		return "<bad spec>"
@@ -251,12 +251,12 @@ func mustAtom(c *Ctx, spec string) string {
 	return a.String()
 }
 
-// c17PoolReturns: getClientConn returns a conn with a nil error only under a
+// hcC17PoolReturns: getClientConn returns a conn with a nil error hcOnly under a
 // successful ReserveNewRequest on that conn, or straight from the dedicated
 // single-use dial.
-func c17PoolReturns(c *Ctx, fnName, reserve string) {
+func hcC17PoolReturns(c *Ctx, fnName, reserve string) {
 	rule := "selected-after-reserve"
-	construct := fnName + ": a conn is returned only after ReserveNewRequest() on it succeeded (single-use dial excepted)"
+	construct := fnName + ": a conn is returned hcOnly after ReserveNewRequest() on it succeeded (single-use dial excepted)"
 	fn := c.MustFn(fnName)
 	if fn == nil {
 		return
